@@ -86,6 +86,17 @@ def cmp_symbolic(path, mt, expr, out, stats, symbols=None, func=None):
     """model term with free symbols vs sympy expression (or a transform's function over `symbols`)"""
     ms = term_syms(mt)
     mnames = ms["par"] | ms["reg"]
+    defined = 0
+    for k in range(3):
+        try:
+            nx.ev(mt, sym_points(mnames, k))
+            defined += 1
+        except nx.Undefined:
+            pass
+    if not defined:
+        # the written expression leaves the range of doubles (or the real domain) at every sample point: unspecified
+        stats["undefined_terms"] = stats.get("undefined_terms", 0) + 1
+        return
     if func is None:
         inames = {str(s) for s in expr.free_symbols}
         if inames != mnames:
